@@ -260,6 +260,14 @@ func runC09(c *eng.Ctx) {
 					}
 					ok = hasBase
 				}
+				// … written with min(…): the builtin or the package's own helper
+				if call := eng.AsCall(eng.Strip(a)); call != nil && (isBuiltinCall(call, "min") || eng.CalleeRef(&call.Call) == cl+"min") {
+					for _, x := range call.Call.Args {
+						if eng.LoadNamed("BaseOffset", nil)(x) {
+							ok = true
+						}
+					}
+				}
 			}
 		}
 		pos := p.Pos(fn.Pos())
